@@ -44,7 +44,7 @@ EXPECTED_PROBES = [f"fault_cut_{c}_{k}" for c in CUT_CLASSES for k in ("fin", "r
     "probe_big_response", "probe_big_request", "probe_unencodable_request", "probe_broken_on_error_ran",
     "probe_many_unencodable_requests_then_a_call", "net_cut_timeout", "probe_two_connections", "line_preemptions_hot", "probe_bidirectional", "probe_reverse_call",
     "probe_server_initiated_close", "net_stall", "probe_request_with_effect", "probe_slow_on_close_ran", "probe_push_call_issued_on_the_klong_loop",
-    "probe_server_evaluation_leaves_through_exit"]
+    "probe_server_evaluation_leaves_through_exit", "probe_request_that_is_a_plain_number"]
 WALL_CAP = {"quick": 400, "thorough": 3600}
 
 
@@ -230,7 +230,12 @@ def scenario(ch, cfg):
     # ---- callers
     def make_msg(i, j):
         base = 1000 * (i + 1)
-        kind = 0 if peer_kind == "scripted" else ch.weighted([10, 4, 2, 2, 2, 2, 2, 2, 2, 1, 5], "msgkind")
+        kind = 0 if peer_kind == "scripted" else ch.weighted([10, 4, 2, 2, 2, 2, 2, 2, 2, 1, 5, 2], "msgkind")
+        if kind == 11:
+            # the request is a plain value, not text: f(1003), f(1003.5) - it is evaluated like its text and answers itself
+            stats["probe_request_that_is_a_plain_number"] += 1
+            v = base + j + (0.5 if ch.draw(2, "plainfloat") else 0)
+            return v, v
         if kind == 10:
             # a request with an effect on the serving side: it happens once if the call returns, at most once whatever
             # becomes of the connection ("not twice")
@@ -495,7 +500,7 @@ def scenario(ch, cfg):
                         import numpy as np
                         same = len(oc[1]) == exp[1] and bool((np.asarray(oc[1]) == np.arange(exp[1])).all())
                     else:
-                        same = (oc[1] == exp) if isinstance(exp, str) else int(oc[1]) == exp
+                        same = (oc[1] == exp) if isinstance(exp, str) else (float(oc[1]) == exp if isinstance(exp, float) else int(oc[1]) == exp)
                 except Exception:
                     same = False
                 if not same:
